@@ -75,6 +75,19 @@ func runC05(c *fw.Ctx) {
 			// at different places, and every single text rewrite together with a file-wide change of
 			// the line ends (single-selection documents of at most 14 lines)
 			ws := doc.TextRewrites(r)
+			// a combination is judged only when each of its parts alone leaves the result unchanged:
+			// what a single rewrite already changes is reported (or listed as known) under that single
+			// rewrite's own signature, not once more per partner
+			singleBad := map[int]int{} // 0 unknown, 1 fine, 2 changes the result
+			aloneFine := func(i int) bool {
+				if singleBad[i] == 0 {
+					singleBad[i] = 1
+					if _, same := sameResult(baseOut, run1(doc.ApplyText(r, ws[i]))); !same {
+						singleBad[i] = 2
+					}
+				}
+				return singleBad[i] == 1
+			}
 			for i, w1 := range ws {
 				if c.Expired() {
 					break
@@ -82,16 +95,22 @@ func runC05(c *fw.Ctx) {
 				if w1.Line < 0 {
 					continue
 				}
+				if !aloneFine(i) {
+					continue
+				}
 				for _, nl := range []string{"\r\n", "\r"} {
 					w1, nl := w1, nl
 					check(doc.Rewrite{Kind: w1.Kind + "+newline", Line: w1.Line, Arg: w1.Arg + "|" + nl}, func() string { return composeRewrites(r, []doc.Rewrite{w1}, nl) })
 				}
-				for _, w2 := range ws[i+1:] {
+				for j2, w2 := range ws[i+1:] {
 					if w2.Line < 0 || w2.Line == w1.Line || (w1.Kind == w2.Kind && w1.Arg == w2.Arg) {
 						continue
 					}
 					// one representative argument per kind for the second rewrite keeps the product square-free
 					if w2.Arg != firstArgOf(ws, w2.Kind) {
+						continue
+					}
+					if !aloneFine(i + 1 + j2) {
 						continue
 					}
 					w1, w2 := w1, w2
